@@ -13,6 +13,7 @@ import (
 	"io"
 	"net"
 	"sort"
+	"strings"
 	"testing"
 	"time"
 
@@ -268,10 +269,18 @@ func (w *hWorld) diffOnlyOverlapped(a, b []int) bool {
 // ---- C15: selection ---------------------------------------------------------
 
 func (w *hWorld) checkSelect(g *hGroup, gi int, nt *componentdialer.NetworkType, strict bool, excl *componentdialer.Dialer, aliveOf func(n *hNode, idx int) bool) {
+	d, _, _, err := g.g.SelectWithExclusionResult(nt, strict, excl)
+	w.judgeSelect(g, gi, nt, strict, excl, aliveOf, d, err, true, "")
+}
+
+// judgeSelect applies the statement's selection rules to one observed result.
+// latency=false leaves out the min-policy tolerance clause (used for selections
+// that ran concurrently with other selectors, where the model's measurement
+// flags are not maintained).
+func (w *hWorld) judgeSelect(g *hGroup, gi int, nt *componentdialer.NetworkType, strict bool, excl *componentdialer.Dialer, aliveOf func(n *hNode, idx int) bool, d *componentdialer.Dialer, err error, latency bool, tag string) {
 	s := w.s
 	pol := g.g.GetSelectionPolicy()
-	d, _, _, err := g.g.SelectWithExclusionResult(nt, strict, excl)
-	desc := fmt.Sprintf("group g%d policy=%s type=%s strict=%v excluded=%v", gi, pol, nt.String(), strict, excl != nil)
+	desc := fmt.Sprintf("%sgroup g%d policy=%s type=%s strict=%v excluded=%v", tag, gi, pol, nt.String(), strict, excl != nil)
 	if pol == consts.DialerSelectionPolicy_Fixed {
 		want := w.nodes[g.members[g.policy.FixedIndex]].d
 		if err != nil || d != want {
@@ -364,7 +373,7 @@ func (w *hWorld) checkSelect(g *hGroup, gi int, nt *componentdialer.NetworkType,
 			s.Failf("select-type-order", "%s: node n%d is not alive for %s, the first type tried that has alive candidates", desc, chosen.i, t.String())
 			return
 		}
-		if !isMinPolicy(pol) {
+		if !isMinPolicy(pol) || !latency {
 			return
 		}
 		if !chosen.hasLat[t.Index()] {
@@ -908,6 +917,32 @@ func healthScenario(s *verifsim.Sim) {
 	nSel := T.Range(0, 2)
 	done := 0
 	total := nNot + nSel
+	busy, epoch := 0, 0
+	quietNow := func() bool {
+		if busy != 0 {
+			return false
+		}
+		for _, name := range s.LiveTasks("") {
+			name = name[:strings.Index(name+"@", "@")]
+			if strings.Contains(name, "/") || !(strings.HasPrefix(name, "notifier") || strings.HasPrefix(name, "selector")) {
+				return false
+			}
+		}
+		return true
+	}
+	snapAlive := func() string {
+		var b strings.Builder
+		for _, n := range w.nodes {
+			for _, nt := range w.types {
+				if implAlive(n, nt.Index()) {
+					b.WriteByte('1')
+				} else {
+					b.WriteByte('0')
+				}
+			}
+		}
+		return b.String()
+	}
 	for k := 0; k < nNot; k++ {
 		k := k
 		n := T.Range(2, 12)
@@ -936,7 +971,11 @@ func healthScenario(s *verifsim.Sim) {
 					verifsim.YieldB("notifier-woke")
 					continue
 				}
+				busy++
+				epoch++
 				apply(e, nil, false)
+				busy--
+				epoch++
 			}
 		})
 	}
@@ -953,7 +992,17 @@ func healthScenario(s *verifsim.Sim) {
 				if T.Chance(1, 3) {
 					excl = w.nodes[g.members[T.Choose(len(g.members))]].d
 				}
-				d, _, _, err := g.g.SelectWithExclusionResult(nt, T.Chance(1, 2), excl)
+				strict := T.Chance(1, 2)
+				// A selection whose whole interval is quiet - no health event in
+				// progress at either end, none begun or ended in between, no timer
+				// or helper task alive, every node's recorded state the same at
+				// both ends - must obey the statement exactly as a sequential one.
+				q0, e0, a0 := quietNow(), epoch, snapAlive()
+				d, _, _, err := g.g.SelectWithExclusionResult(nt, strict, excl)
+				if q0 && quietNow() && epoch == e0 && snapAlive() == a0 {
+					s.Probe("health.concurrent-select-in-quiet-interval")
+					w.judgeSelect(g, gi, nt, strict, excl, implAlive, d, err, false, "concurrent configuration, quiet interval: ")
+				}
 				if err == nil {
 					if w.nodeOf(d) == nil {
 						s.Failf("select-error", "group g%d returned a node that is not in the group", gi)
